@@ -4,6 +4,7 @@ import (
 	"go/ast"
 	"go/token"
 	"go/types"
+	"golang.org/x/tools/go/callgraph/cha"
 	"sort"
 	"strings"
 
@@ -30,6 +31,7 @@ func (p *Prog) SetKnown(known map[string]bool) {
 	p.transparent = map[*ssa.Function]bool{}
 	p.hofApplied = map[*ssa.Function]bool{}
 	siteCache = map[*ssa.Function][]*ssa.Call{}
+	p.pruneDead()
 	p.allMod = p.ModFuncs
 	// static call sites and value uses per function
 	static := map[*ssa.Function]int{}
@@ -123,7 +125,14 @@ func (p *Prog) SetKnown(known map[string]bool) {
 			continue
 		}
 		if ast.IsExported(fn.Name()) && fn.Parent() == nil {
-			continue // part of the API: callable from outside in contexts of its own
+			// part of the API: callable from outside in contexts of its own.
+			// An exported function that is NOT on the reference tree (a new entry
+			// point that an existing one now forwards to: `Send` -> `SendWithOpt`)
+			// is analysed where the existing API calls it; the properties speak
+			// of the API they were written for.
+			if _, old := refSigs[p.fnNameRaw(fn)]; old || len(refSigs) == 0 {
+				continue
+			}
 		}
 		cand[fn] = true
 	}
@@ -141,6 +150,13 @@ func (p *Prog) SetKnown(known map[string]bool) {
 			}
 			if c, ok := in.(*ssa.Call); ok {
 				if f := EffCallee(c); f != nil && cand[f] {
+					if f == from && from == to {
+						// a function that calls itself (the retry of an
+						// operation): walked through once, the inner call
+						// stays a call - every walker skips a helper that is
+						// already on its stack
+						return
+					}
 					if f == to || reaches(f, to, seen) {
 						found = true
 					}
@@ -307,7 +323,10 @@ var deepProg *Prog
 // were expanded at that call (depth-bounded; helpers are never recursive).
 func Instrs(fn *ssa.Function, f func(ssa.Instruction)) {
 	var rec func(g *ssa.Function, d int)
+	onStack := map[*ssa.Function]bool{}
 	rec = func(g *ssa.Function, d int) {
+		onStack[g] = true
+		defer delete(onStack, g)
 		for _, b := range g.Blocks {
 			for _, in := range b.Instrs {
 				f(in)
@@ -315,7 +334,7 @@ func Instrs(fn *ssa.Function, f func(ssa.Instruction)) {
 					continue
 				}
 				if c, ok := in.(*ssa.Call); ok {
-					if callee := EffCallee(c); callee != nil && callee != fn && deepProg.transparent[callee] {
+					if callee := EffCallee(c); callee != nil && callee != fn && !onStack[callee] && deepProg.transparent[callee] {
 						rec(callee, d+1)
 					}
 					for _, mc := range deepProg.helperLiterals(c) {
@@ -627,7 +646,13 @@ func InstrsCtx(fn *ssa.Function, f func(in ssa.Instruction, stack []*ssa.Call)) 
 					continue
 				}
 				if c, ok := in.(*ssa.Call); ok {
-					if callee := EffCallee(c); callee != nil && callee != fn && deepProg.transparent[callee] {
+					onStack := false
+					for _, sc := range stack {
+						if EffCallee(sc) == EffCallee(c) {
+							onStack = true
+						}
+					}
+					if callee := EffCallee(c); callee != nil && callee != fn && !onStack && deepProg.transparent[callee] {
 						rec(callee, append(append([]*ssa.Call(nil), stack...), c))
 					}
 					for _, mc := range deepProg.helperLiterals(c) {
@@ -1117,4 +1142,76 @@ func (p *Prog) appliesLiteral(c *ssa.Call, lit *ssa.Function) bool {
 		}
 	}
 	return false
+}
+
+// pruneDead takes unexported top-level functions and methods that nothing
+// can call out of the analysed program: no static call, no use as a value, no
+// dynamic call that class-hierarchy analysis could dispatch to them (debug
+// formatters kept for a rainy day, helpers left behind by a refactoring). What
+// cannot run cannot break a property; analysing it would attribute accesses to
+// "a new function" nobody executes. The names are listed in the evidence.
+func (p *Prog) pruneDead() {
+	if p.deadDone {
+		return
+	}
+	p.deadDone = true
+	used := map[*ssa.Function]bool{}
+	for fn := range p.allFuncs {
+		if !p.InModule(fn) {
+			continue
+		}
+		InstrsShallow(fn, func(in ssa.Instruction) {
+			for _, op := range in.Operands(nil) {
+				if *op == nil {
+					continue
+				}
+				if f, ok := (*op).(*ssa.Function); ok && f != fn {
+					used[f] = true
+					if o := f.Origin(); o != nil {
+						used[o] = true
+					}
+				}
+			}
+		})
+	}
+	cg := cha.CallGraph(p.SSA)
+	var keep []*ssa.Function
+	for _, fn := range p.ModFuncs {
+		dead := fn.Parent() == nil && !ast.IsExported(fn.Name()) && fn.Name() != "init" && fn.Name() != "main" &&
+			fn.Synthetic == "" && !used[fn] && !p.IsTestFile(fn.Pos()) && !containsStr(p.Pos(fn.Pos()), ".pb.go:")
+		if dead {
+			if n := cg.Nodes[fn]; n != nil && len(n.In) > 0 {
+				dead = false
+			}
+		}
+		if dead && fn.Signature.Recv() != nil {
+			// a method that satisfies an interface method by name may be reached by reflection-free dynamic dispatch CHA did not see (embedded in an exported type): keep methods with exported names
+			dead = !ast.IsExported(fn.Name())
+		}
+		if dead {
+			p.Dead = append(p.Dead, p.fnNameRaw(fn))
+			continue
+		}
+		keep = append(keep, fn)
+	}
+	// literals of dead functions go with them
+	isDead := map[string]bool{}
+	for _, d := range p.Dead {
+		isDead[d] = true
+	}
+	if len(p.Dead) > 0 {
+		var keep2 []*ssa.Function
+		for _, fn := range keep {
+			root := fn
+			for root.Parent() != nil {
+				root = root.Parent()
+			}
+			if root != fn && isDead[p.fnNameRaw(root)] {
+				continue
+			}
+			keep2 = append(keep2, fn)
+		}
+		keep = keep2
+	}
+	p.ModFuncs = keep
 }
